@@ -68,6 +68,11 @@ def run(ck):
     # GEN: every ordered pair of menu calls (exhaustive), plus simulated long histories
     r = ck.mc("Session", "CONSTANTS MenuSize = %d MaxLen = 2\nINIT Init\nNEXT Next\nINVARIANT Emit\n" % n, "GEN every ordered pair of menu calls")
     seqs = [e["calls"] for e in r.emitted]
+    # the menu has two parts: the base menu, and the calls on caller-owned containers / narrow arrays (which interact with one another: same container, same
+    # dtype).  Quick tier: every ordered pair WITHIN each part, and every fourth mixed pair; thorough: every ordered pair.
+    nb = min(i for i, dsc in enumerate(menu) if dsc["fmt"] == "narrowarray" or dsc["kw"].get("obj")) 
+    if q:
+        seqs = [s for s in seqs if (s[0] <= nb) == (s[1] <= nb) or (s[0] + s[1]) % 4 == 0]
     ck.exhaustive = True
     ck.cat("ordered_pairs", len(seqs))
     L = 8 if q else 30
@@ -96,7 +101,7 @@ def run(ck):
     ck.sample({"menu_size": n, "menu_examples": [menu[0], menu[len(menu) // 2], menu[-1]]})
     ck.sample({"history": seqs[-1], "first_events": traces[-1]["events"][:2]})
     ck.rule = ("menu of %d calls mixing all algorithms, presentations (list / array / dict / names+valueof), output types, options and calls that must fail; TLC (Session.tla) generates every ordered "
-               "pair of calls and simulated histories of length %d; each history runs in one freshly forked interpreter; every return is compared by TLC with the same call's return in a fresh "
+               "pair of calls (quick tier: every pair within the base menu and within the container / narrow-array calls, a quarter of the mixed pairs) and simulated histories of length %d; each history runs in one freshly forked interpreter; every return is compared by TLC with the same call's return in a fresh "
                "interpreter (under two hash seeds) and the argument objects are digested before and after. non-trivial = distinct history with >=2 calls") % (n, L)
     fails = ck.judge("JSession", traces, {"C15"}, what="C15 call histories", chunk=4000, count_events=lambda t: len(t["events"]))
     ck.classify(fails, lambda fl: {"alg": menu[fl["trace"]["events"][fl["e"] - 1]["c"] - 1]["alg"], "call": menu[fl["trace"]["events"][fl["e"] - 1]["c"] - 1],
